@@ -6,7 +6,7 @@ Open Scope R_scope.
 (* physical -> fraction / percent, for each of the 19 material representations *)
 Lemma c_loading_factor_frac_to M rml rmg temp v op (mat : mrep) (r1 r2 : lrep) :
   0 < M -> 0 < rml -> 0 < rmg -> l_is_phys r1 = true -> l_is_phys r2 = false ->
-  c_loading RNum v (l_basis r1) (l_basis r2) (l_unit r1) (l_unit r2) (mkAds RNum op (Some M) (Some (rml * M)) (Some (rmg * M)) (Some rml) (Some rmg)) temp (m_basis mat) (m_unit mat)
+  c_loading RNum v (l_basis r1) (l_basis r2) (l_unit r1) (l_unit r2) (@ads_const RNum op (Some M) (Some (rml * M)) (Some (rmg * M)) (Some rml) (Some rmg)) temp (m_basis mat) (m_unit mat)
   = Ok (spec_conv (l_canon_phys M rml rmg r1) (l_canon M rml rmg mat r2) v).
 Proof.
   intros HM Hl Hg H1 H2. unfold spec_conv.
@@ -20,7 +20,7 @@ Qed.
 (* fraction <-> percent and the two identities: the material labels are not consulted *)
 Lemma c_loading_factor_frac_frac M rml rmg temp v bm um op (mat : mrep) (r1 r2 : lrep) :
   0 < M -> 0 < rml -> 0 < rmg -> l_is_phys r1 = false -> l_is_phys r2 = false ->
-  c_loading RNum v (l_basis r1) (l_basis r2) (l_unit r1) (l_unit r2) (mkAds RNum op (Some M) (Some (rml * M)) (Some (rmg * M)) (Some rml) (Some rmg)) temp bm um
+  c_loading RNum v (l_basis r1) (l_basis r2) (l_unit r1) (l_unit r2) (@ads_const RNum op (Some M) (Some (rml * M)) (Some (rmg * M)) (Some rml) (Some rmg)) temp bm um
   = Ok (spec_conv (l_canon M rml rmg mat r1) (l_canon M rml rmg mat r2) v).
 Proof.
   intros HM Hl Hg H1 H2. unfold spec_conv.
